@@ -207,6 +207,35 @@ class Tracer(SymEval):
             return self.eval(n["e"], env)
         return ("tuple", [])
 
+    def e_match(self, n, env):
+        from .symx import const_key
+        from .tables import pat_key
+        s = self.eval(n["e"], env)
+        if const_key(s) is not None:
+            return super().e_match(n, env)
+        arms = []
+        for a in n["arms"]:
+            e2 = dict(env)
+            try:
+                self.bind(a["pat"], s, e2)
+            except Unsupported:
+                pass
+            self.guards.append((app("matches", s, repr(pat_key(a["pat"]))), True))
+            try:
+                if "guard" in a:
+                    g = self.eval(a["guard"], e2)
+                    self.guards.append((g, True))
+                    try:
+                        v = self.eval(a["body"], e2)
+                    finally:
+                        self.guards.pop()
+                else:
+                    v = self.eval(a["body"], e2)
+            finally:
+                self.guards.pop()
+            arms.append((repr(pat_key(a["pat"])), v))
+        return app("match", s, tuple(arms))
+
     def e_ret(self, n, env):
         v = self.eval(n["e"], env) if "e" in n else ("tuple", [])
         self.events.append(Event("<return>", [v], self.loops, self.guards, n.get("sp"), n))
